@@ -2,6 +2,8 @@
 
 use raft_log::WALRecord;
 use raft_log::codeq::{Decode, Encode};
+#[allow(unused_imports)]
+use std::io::Write as _;
 use serde_json::json;
 
 use crate::frame::{Ctx, Tier, Viol};
@@ -172,8 +174,85 @@ pub fn check_arbitrary(b: &[u8]) -> Result<bool, Viol> {
     Ok(matches!(c, Dec::Ok(..)))
 }
 
+/// A writer that accepts `limit` bytes and then fails.
+struct FailingWriter {
+    limit: usize,
+    taken: usize,
+}
+
+impl std::io::Write for FailingWriter {
+    fn write(&mut self, b: &[u8]) -> std::io::Result<usize> {
+        if self.taken >= self.limit {
+            return Err(std::io::Error::other("writer full"));
+        }
+        let n = b.len().min(self.limit - self.taken);
+        self.taken += n;
+        Ok(n)
+    }
+    fn flush(&mut self) -> std::io::Result<()> {
+        Ok(())
+    }
+}
+
+/// An encode that fails half-way (the writer gives up) must not influence any later encode: the next record
+/// encoded on this thread must come out byte-identical to the reference encoding, with the right count.
+fn check_encode_after_failed_encode(rec: &Rec, r: &mut Rng) -> Result<u64, Viol> {
+    let w = match guarded(|| store::rec_to_wal(rec)) {
+        Ok(w) => w,
+        Err(_) => return Ok(0),
+    };
+    let full = refcodec::encode(rec);
+    let limit = r.below(full.len() as u64) as usize;
+    let first = guarded(|| w.encode(FailingWriter { limit, taken: 0 }));
+    match first {
+        Err(p) => return Err(v("encode_panic", format!("encode into a writer that fails after {} bytes panicked: {}", limit, p), &full)),
+        Ok(Ok(n)) => return Err(v("encode_ok_on_failing_writer", format!("encode reported Ok({}) although the writer accepted only {} of {} bytes", n, limit, full.len()), &full)),
+        Ok(Err(_)) => {}
+    }
+    let (bytes, n) = match guarded(|| store::crate_encode(&w)) {
+        Ok(x) => x,
+        Err(p) => return Err(v("encode_panic", format!("encode after a failed encode panicked: {}", p), &full)),
+    };
+    if bytes != full || n != full.len() {
+        return Err(v("encode_after_failed_encode_differs", format!("after an encode that failed at byte {} the next encode of a {} record produced {} bytes (reported {}), the reference encoding has {}", limit, rec.kind(), bytes.len(), n, full.len()), &bytes));
+    }
+    Ok(1)
+}
+
+/// Records whose checksum is a chosen value (0, 1, 0xFFFFFFFF, ...): the low four bytes of a Commit record's index
+/// are the last bytes under the checksum and are solved for. Such a record is as valid as any other.
+fn check_forged_checksums(r: &mut Rng) -> Result<u64, Viol> {
+    let mut n = 0;
+    for target in [0u32, 1, 0xFFFF_FFFF, 0x8000_0000, r.next() as u32] {
+        let term = r.next();
+        let hi = (r.next() >> 32) << 32;
+        let mut body = vec![];
+        body.extend_from_slice(&2u32.to_be_bytes());
+        body.extend_from_slice(&term.to_be_bytes());
+        body.extend_from_slice(&hi.to_be_bytes()[..4]);
+        let low = refcodec::crc32_forge_suffix(&body, target);
+        body.extend_from_slice(&low);
+        if refcodec::crc32(&body) != target {
+            continue; // the solver did not reach the target: no claim
+        }
+        let index = u64::from_be_bytes([body[12], body[13], body[14], body[15], low[0], low[1], low[2], low[3]]);
+        let rec = Rec::Commit((term, index));
+        let bytes = refcodec::encode(&rec);
+        n += 1;
+        match crate_decode(&bytes) {
+            Dec::Ok(r2, used) if r2 == rec && used == bytes.len() => {}
+            other => return Err(v("valid_record_rejected:checksum_value", format!("a valid Commit record whose CRC-32 is {:#x} is not decoded back: {:?}", target, short_dec(&other)), &bytes)),
+        }
+    }
+    Ok(n)
+}
+
 pub fn run_shard(ctx: &mut Ctx) {
     let mut r = Rng::new(ctx.shard_seed());
+    match check_forged_checksums(&mut r) {
+        Ok(n) => ctx.out.count("records_with_a_forged_checksum_value(0,1,0xFFFFFFFF,..)", n),
+        Err(vi) => ctx.out.viol(vi),
+    }
     let quick_recs = 5000u64;
     let mut i = 0u64;
     let mut big: Vec<Vec<u8>> = vec![];
@@ -196,6 +275,10 @@ pub fn run_shard(ctx: &mut Ctx) {
         }
         for rec in &all {
             ctx.out.evaluations += 1;
+            match check_encode_after_failed_encode(rec, &mut r) {
+                Ok(n) => ctx.out.count("encodes_after_a_failed_encode", n),
+                Err(vi) => ctx.out.viol(vi),
+            }
             match check_roundtrip(rec, &mut r) {
                 Ok(n) => ctx.out.count("decodes", n),
                 Err(vi) => ctx.out.viol(vi),
@@ -216,6 +299,12 @@ pub fn run_shard(ctx: &mut Ctx) {
         let rec = gen_rec(&mut r, ctx.tier == Tier::Thorough || i % 50 == 0);
         ctx.out.evaluations += 1;
         ctx.out.count(&format!("roundtrip:{}", rec.kind()), 1);
+        if i % 8 == 0 {
+            match check_encode_after_failed_encode(&rec, &mut r) {
+                Ok(n) => ctx.out.count("encodes_after_a_failed_encode", n),
+                Err(vi) => ctx.out.viol(vi),
+            }
+        }
         match check_roundtrip(&rec, &mut r) {
             Ok(n) => ctx.out.count("decodes", n),
             Err(vi) => {
